@@ -213,6 +213,44 @@ async fn inst_one_run(base: std::path::PathBuf, n: usize, p: usize, j: usize) ->
     fails
 }
 
+/// a fresh follower on whose disk a LONGER file already has the name the next snapshot file will get (the leftover of an install
+/// that was interrupted): the leader's image followed by one more record, a configuration `zz` the leader never had
+async fn inst_leftover_run(base: std::path::PathBuf) -> Vec<String> {
+    use crate::config::model::ConfigValueDO;
+    let (dir_l, dir_f) = (base.join("leftover-leader"), base.join("leftover-follower"));
+    for d in [&dir_l, &dir_f] { std::fs::create_dir_all(d).unwrap(); }
+    let mut fails = vec![];
+    let leader = inst_start_node(&dir_l, 1).await;
+    let follower = inst_start_node(&dir_f, 2).await;
+    for i in 0..3 {
+        let index = i as u64 + 1;
+        let req = inst_history(i);
+        leader.store.append_entry_to_log(&inst_entry(index, req.clone())).await.unwrap();
+        leader.store.apply_entry_to_state_machine(&index, &req).await.unwrap();
+    }
+    let mut data = leader.store.do_log_compaction().await.unwrap();
+    let mut bytes = vec![];
+    data.snapshot.seek(std::io::SeekFrom::Start(0)).await.unwrap();
+    data.snapshot.read_to_end(&mut bytes).await.unwrap();
+    // the leftover: same image + the frame of a stale configuration record
+    let stale = SnapshotRecordDto { tree: crate::common::constant::CONFIG_TREE_NAME.clone(), key: ConfigKey::new("zz", "DEFAULT_GROUP", "").build_key().into_bytes(),
+        value: ConfigValueDO { content: Some("stale".to_owned()), histories: vec![], config_type: None, desc: None }.to_bytes().unwrap(), op_type: 0 };
+    let mut leftover = bytes.clone();
+    { let mut w = quick_protobuf::Writer::new(&mut leftover); w.write_message(&stale.to_record_do()).unwrap(); }
+    std::fs::write(dir_f.join("snapshot_1"), &leftover).unwrap();
+    let (id, mut file) = follower.store.create_snapshot().await.unwrap();
+    file.write_all(&bytes).await.unwrap();
+    file.flush().await.unwrap();
+    follower.store.finalize_snapshot_installation(data.index, 1, None, id.clone(), file).await.unwrap();
+    tokio::time::sleep(Duration::from_millis(400)).await;
+    let (ls, fs) = (inst_observe(&leader).await, inst_observe(&follower).await);
+    let zz = match follower.data_wrap.config.send(ConfigCmd::GET(ConfigKey::new("zz", "DEFAULT_GROUP", ""))).await.unwrap().unwrap() { ConfigResult::Data { value, .. } => Some(value), _ => None };
+    if fs != ls || zz.is_some() || id != "1" {
+        fails.push(format!("VX-BOUNDED-FAIL INSTALL leftover-file: a longer file named snapshot_{} was on the follower's disk before the install; the leader serves: {} | the follower serves: {} and configuration zz = {:?} (the leader never had it)", id, ls, fs, zz));
+    }
+    fails
+}
+
 #[test]
 fn vx_bounded_c08_install() {
     let base = std::env::temp_dir().join(format!("vx_c08i_{}", std::process::id()));
@@ -222,9 +260,11 @@ fn vx_bounded_c08_install() {
     let (failures, runs) = sys.block_on(async {
         let mut futs = vec![];
         for n in 1..=INST_HISTORY_LEN { for p in 1..=n { for j in 0..p { futs.push(inst_one_run(base.clone(), n, p, j)); } } }
-        let runs = futs.len();
+        let runs = futs.len() + 1;
         let res = futures_util::future::join_all(futs).await;
-        (res.into_iter().flatten().collect::<Vec<String>>(), runs)
+        let mut all = res.into_iter().flatten().collect::<Vec<String>>();
+        all.extend(inst_leftover_run(base.clone()).await);
+        (all, runs)
     });
     let _ = std::fs::remove_dir_all(&base);
     println!("vx_bounded_c08_install: {} (history, compaction point, follower lag) runs through FileStore::finalize_snapshot_installation", runs);
